@@ -1291,7 +1291,7 @@ func TestVerifC15(t *testing.T) {
 	two := func(a, b c15Script) map[string]c15Script { return map[string]c15Script{"1": a, "11": b} }
 	blk := func(a, b c15Script) map[string]c15Script { return map[string]c15Script{"1": a, "2": b} }
 	ok := func(c string) c15Script { return c15Script{Kind: "ok", Content: c} }
-	all := []int64{1, 2, 11}
+	all := []int64{1, 2, 11, 12}
 	web := []c15List{{ID: 1, Enabled: true, Name: "list 1"}}
 	both := []c15List{{ID: 1, Enabled: true, Name: "list 1"}, {ID: 11, Allow: true, Enabled: true, Name: "list 11"}}
 	pair := []c15List{{ID: 1, Enabled: true, Name: ""}, {ID: 2, Enabled: true, Name: "list 2"}}
@@ -1433,10 +1433,21 @@ func TestVerifC15(t *testing.T) {
 	// one, as the last byte of the body, after 4 KiB of rules, in a comment
 	// line, in the title line; forced and scheduled refreshes of a block and an
 	// allow list (the allow list seven values ahead, so that passes where one
-	// list fails and the other is updated are among them).
+	// list fails and the other is updated are among them).  A second list in
+	// each array is updated in every pass, so that no pass ends in "network
+	// error" and the engine is rebuilt: the verdicts in force are compared with
+	// the stored files after every step.
 	vals := verifc15.Values()
 	for pi, pos := range verifc15.Positions {
-		lists := []c15List{{ID: 1, Enabled: true, Name: "list 1"}, {ID: 11, Allow: true, Enabled: true, Name: "list 11"}}
+		lists := []c15List{{ID: 1, Enabled: true, Name: "list 1"}, {ID: 2, Enabled: true, Name: "list 2"},
+			{ID: 11, Allow: true, Enabled: true, Name: "list 11"}, {ID: 12, Allow: true, Enabled: true, Name: "list 12"}}
+		n := 0
+		two := func(a, b c15Script) map[string]c15Script {
+			n++
+			return map[string]c15Script{"1": a, "11": b,
+				"2":  ok(fmt.Sprintf("||beside-%d.invalid^\n", n%2)),
+				"12": ok(fmt.Sprintf("||beside-%d.invalid^\n||also.invalid^\n", n%2))}
+		}
 		steps := []c15Step{step(two(ok(good1), ok(a2)))}
 		if pos == "title" {
 			// The block list has no name and starts with the first of these
